@@ -265,7 +265,7 @@ def m_as_nanos(ex, st, c): return Int('u128', D(ex, st, c.args[0]).data)
 def m_bufreader_new(ex, st, c): return D(ex, st, c.args[0])
 
 
-@model(r'^<BufReader<File> as Seek>::seek$', r'^<File as Seek>::seek$', r'^<std::io::BufReader<File> as std::io::Seek>::seek$', r'^<File as std::io::Seek>::seek$')
+@model(r'^<(std::io::)?BufReader<(std::fs::)?File> as (std::io::)?Seek>::seek$', r'^<(std::fs::)?File as (std::io::)?Seek>::seek$')
 def m_seek(ex, st, c):
     f = D(ex, st, c.args[0]); pos = D(ex, st, c.args[1])
     e, _ = f.data
@@ -275,8 +275,15 @@ def m_seek(ex, st, c):
     return Ok(n)
 
 
+@model(r'^<.* as (std::io::)?Read>::by_ref$', r'^std::io::Read::by_ref$', r'^Read::by_ref$')
+def m_by_ref(ex, st, c): return c.args[0]
+
+
 @model(r'^<.* as (std::io::)?Read>::take$', r'^std::io::Read::take$')
-def m_take(ex, st, c): return Opaque('Take', (D(ex, st, c.args[0]), D(ex, st, c.args[1])))
+def m_take(ex, st, c):
+    # `reader.by_ref().take(n)` keeps the &mut: reads through the Take advance the underlying reader
+    inner = c.args[0] if isinstance(c.args[0], MutRef) else D(ex, st, c.args[0])
+    return Opaque('Take', (inner, D(ex, st, c.args[1])))
 
 
 def read_range(e, pos, limit):
@@ -292,16 +299,22 @@ def read_range(e, pos, limit):
 @model(r'^<std::io::Take<.*> as (std::io::)?Read>::read_to_end$', r'^<File as (std::io::)?Read>::read_to_end$', r'^<std::io::BufReader<File> as (std::io::)?Read>::read_to_end$', r'^<BufReader<File> as Read>::read_to_end$', r'^<Take<.*> as Read>::read_to_end$')
 def m_file_read_to_end(ex, st, c):
     t = D(ex, st, c.args[0]); buf = D(ex, st, c.args[1])
-    limit = None
+    limit = None; inner_ref = None
     if t.tag == 'Take':
         f, lim = t.data; limit = lim.v
+        if isinstance(f, MutRef): inner_ref = f; f = D(ex, st, f)
     else:
         f = t
     e, pos = f.data
     st.world['fslog'] = st.world.get('fslog', ()) + (('read', e.path),)
     isdir = kind_is(e, K_DIR)
     data, n = read_range(e, pos, limit)
-    return ForkStore([(isdir, Err(io_error()), None), (b_not(isdir), Ok(usize(n)), (c.args[1], buf.concat(data)))])
+    # the read advances the position of the file it reads from
+    newpos = bv_add(pos, n, LW)
+    if inner_ref is not None: adv = (inner_ref, Opaque(f.tag, (e, newpos)))
+    elif t.tag == 'Take': adv = (c.args[0], Opaque('Take', (Opaque(f.tag, (e, newpos)), Int('u64', bv_sub(limit, n, LW)))))
+    else: adv = (c.args[0], Opaque(f.tag, (e, newpos)))
+    return ForkStore([(isdir, Err(io_error()), None), (b_not(isdir), Ok(usize(n)), ((c.args[1], buf.concat(data)), adv))])
 
 
 @model(r'^std::fs::read_to_string$', r'^read_to_string$', r'^fs::read_to_string$')
@@ -490,6 +503,14 @@ def m_stream_flush(ex, st, c):
     if cfg.get('flush_mode', 'arbitrary') == 'ok': return _IoEv(('flush', True), Ok(UNIT))
     fail = z3.Bool(ex.fresh('flush_fail'))
     return Fork([(fail, _IoEv(('flush', False), Err(io_error()))), (z3.Not(fail), _IoEv(('flush', True), Ok(UNIT)))])
+
+
+@model(r'^(std::net::)?TcpStream::(shutdown|set_nodelay|set_read_timeout|set_write_timeout|set_nonblocking|set_ttl)$')
+def m_socket_call(ex, st, c):
+    """socket-level calls on the connection: the kernel may refuse any of them (ENOTCONN after a reset, EINVAL, ...)"""
+    what = c.callee.split('::')[-1]
+    fail = z3.Bool(ex.fresh(what + '_fail'))
+    return Fork([(fail, _IoEv((what, False), Err(io_error()))), (z3.Not(fail), _IoEv((what, True), Ok(UNIT)))])
 
 
 @model(r'^<impl Application as Application>::execute$')
